@@ -278,13 +278,17 @@ func (fr *Frame) callFunction(callee *ssa.Function, args []Val, bindings []Val, 
 	if len(callee.Blocks) == 0 {
 		unsupp("call of bodyless function %s without a spec", key)
 	}
-	for _, s := range fx.callStack {
-		if s == key {
-			unsupp("recursive inlining of %s", key)
+	// (instantiation wrappers of generic functions carry the key of the
+	// function they forward to: they are transparent for the recursion guard)
+	if callee.Synthetic == "" {
+		for _, s := range fx.callStack {
+			if s == key {
+				unsupp("recursive inlining of %s", key)
+			}
 		}
+		fx.callStack = append(fx.callStack, key)
+		defer func() { fx.callStack = fx.callStack[:len(fx.callStack)-1] }()
 	}
-	fx.callStack = append(fx.callStack, key)
-	defer func() { fx.callStack = fx.callStack[:len(fx.callStack)-1] }()
 	fx.inlined[key] = true
 	short := callee.Name()
 	sub := st.clone()
@@ -366,12 +370,18 @@ func (fr *Frame) callWithSpec(callee *ssa.Function, spec *FuncSpec, args []Val, 
 		}
 		return extra
 	}
-	if root := fx.rootSpec; root != nil && fr.isRoot {
+	// (the clauses also apply to calls made from helpers that are inlined
+	// into the function: they are evaluated in the function's own frame)
+	atFrame := fr
+	if !fr.isRoot && fx.rootFrame != nil {
+		atFrame = fx.rootFrame
+	}
+	if root := fx.rootSpec; root != nil {
 		for i, ac := range root.AtCalls {
 			if ac.Assume || !strings.HasSuffix(key, ac.Callee) {
 				continue
 			}
-			t := fr.evalClause(ac.Clause, pre, nil, atExtra(nil))
+			t := atFrame.evalClause(ac.Clause, pre, nil, atExtra(nil))
 			fx.oblige("requires", fmt.Sprintf("%s/at_call/%s/%s#", fr.path, short, clauseName(ac.Clause, i)), st, t, pos, ac.Clause.Src)
 		}
 	}
@@ -486,13 +496,13 @@ func (fr *Frame) callWithSpec(callee *ssa.Function, spec *FuncSpec, args []Val, 
 		fx.assume(st.guard, post.equalView(cvOf(resVals[0]), rv))
 		fx.noteAssumption(key + " is deterministic and has no effects: its result is denoted by the spec function " + spec.ResultIs)
 	}
-	if root := fx.rootSpec; root != nil && fr.isRoot {
+	if root := fx.rootSpec; root != nil {
 		for _, ac := range root.AtCalls {
 			if !ac.Assume || !strings.HasSuffix(key, ac.Callee) {
 				continue
 			}
 			ac := ac
-			fx.assume(st.guard, fx.hyp(func() T { return fr.evalClause(ac.Clause, st, nil, atExtra(resVals)) }))
+			fx.assume(st.guard, fx.hyp(func() T { return atFrame.evalClause(ac.Clause, st, nil, atExtra(resVals)) }))
 			fx.noteAssumption("ASSUMED about every " + short + " call made by " + funcKey(fr.fn) + " (resource invariant, not derived from the callee): " + ac.Clause.Label + ": " + ac.Clause.Src)
 		}
 	}
